@@ -26,8 +26,8 @@ func (ft *funcTrans) calleeContract(com *ssa.CallCommon) *Contract {
 	if fn := com.StaticCallee(); fn != nil {
 		// contract specialised by the dynamic type of an interface argument:
 		// key "pkg.Func<concrete type>" (e.g. sort.Sort<github.com/paulmach/osm.updatesSortIndex>)
-		if len(com.Args) > 0 {
-			if mi, ok := com.Args[0].(*ssa.MakeInterface); ok {
+		for _, a := range com.Args {
+			if mi, ok := a.(*ssa.MakeInterface); ok {
 				key := fn.String() + "<" + types.TypeString(mi.X.Type(), nil) + ">"
 				if c := ft.p.Contracts[key]; c != nil {
 					return c
@@ -119,6 +119,16 @@ func (ft *funcTrans) call(in ssa.CallInstruction, val *ssa.Call) {
 	c := ft.calleeContract(com)
 	name := calleeName(com)
 	st := ft.curSt
+	if ft.c != nil {
+		for k, cr := range ft.c.CallReqs {
+			if strings.Contains(name, cr.Callee) {
+				ec := ft.localCtx(st)
+				t := ec.evalBool(cr.C.E)
+				o := ft.obligation("callreq", fmt.Sprintf("call%d.%s.callreq%d", ft.nCalls, shortName(name), k+1), cr.C.Src, t.S)
+				o.Where = posStr(ft.p.SSA.Fset, in.Pos())
+			}
+		}
+	}
 	inferredFrame := callee != nil && ft.p.writesOnlyFresh(callee)
 	if c == nil {
 		// unknown callee: result unconstrained; heap havocked unless the callee
@@ -148,9 +158,9 @@ func (ft *funcTrans) call(in ssa.CallInstruction, val *ssa.Call) {
 		sig = com.Value.Type().Underlying().(*types.Signature)
 	}
 	specialised := strings.Contains(c.Key, "<")
-	for ai, a := range com.Args {
-		if specialised && ai == 0 {
-			if mi, ok := a.(*ssa.MakeInterface); ok {
+	for _, a := range com.Args {
+		if specialised {
+			if mi, ok := a.(*ssa.MakeInterface); ok && strings.Contains(c.Key, "<"+types.TypeString(mi.X.Type(), nil)+">") {
 				actuals = append(actuals, ft.termOf(mi.X))
 				continue
 			}
@@ -341,9 +351,13 @@ func (ft *funcTrans) designatorHeaps(e Expr, callee *ssa.Function, com *ssa.Call
 	}
 	for k := 0; k < sig.Params().Len(); k++ {
 		pt := sig.Params().At(k).Type()
-		if k == 0 && len(com.Args) > 0 {
-			if mi, ok := com.Args[0].(*ssa.MakeInterface); ok {
-				if cc := ft.calleeContract(com); cc != nil && strings.Contains(cc.Key, "<") {
+		ak := k
+		if sig.Recv() != nil && !com.IsInvoke() {
+			ak = k + 1
+		}
+		if ak < len(com.Args) {
+			if mi, ok := com.Args[ak].(*ssa.MakeInterface); ok {
+				if cc := ft.calleeContract(com); cc != nil && strings.Contains(cc.Key, "<"+types.TypeString(mi.X.Type(), nil)+">") {
 					pt = mi.X.Type()
 				}
 			}
@@ -401,6 +415,11 @@ func (ft *funcTrans) desigHeaps(ec *evalCtx, e Expr) []string {
 			return []string{w.elemHeap(w.sortOf(base.Sort.Go.Underlying().(*types.Slice).Elem()))}
 		}
 	case *EIdent:
+		if g, ok := w.P.Spec.Ghosts[x.Name]; ok {
+			h := "G_ghost." + x.Name
+			w.heapSorts[h] = g
+			return []string{h}
+		}
 		if ec.pkg != nil {
 			if o, ok := ec.pkg.Scope().Lookup(x.Name).(*types.Var); ok {
 				return []string{w.globalHeap(ec.pkg, o.Name(), w.sortOf(o.Type()))}
@@ -631,7 +650,7 @@ func (ft *funcTrans) ret(x *ssa.Return) {
 			env[n] = t
 		}
 	}
-	ec := &evalCtx{w: w, pkg: ft.pkgTypes(), env: env, st: st, old: ft.entry, lets: ft.lets()}
+	ec := &evalCtx{w: w, pkg: ft.pkgTypes(), env: env, st: st, old: ft.entry, lets: ft.lets(), cells: ft.envCells, ft: ft}
 	where := posStr(ft.p.SSA.Fset, x.Pos())
 	{
 		o := ft.obligation("cover", fmt.Sprintf("reach-return@b%d", ft.cur.Index), "return is reachable", "true")
@@ -666,7 +685,7 @@ func (ft *funcTrans) frameSpecOf() *frameSpec {
 		return ft.fspec
 	}
 	w := ft.w
-	ecPre := &evalCtx{w: w, pkg: ft.pkgTypes(), env: ft.env, st: ft.entry, old: ft.entry, lets: ft.lets()}
+	ecPre := &evalCtx{w: w, pkg: ft.pkgTypes(), env: ft.env, st: ft.entry, old: ft.entry, lets: ft.lets(), cells: ft.envCells, ft: ft}
 	fs := &frameSpec{allowed: map[string][]frameAllow{}, whole: map[string]bool{}}
 	for _, a := range ft.c.Assigns {
 		hs := ft.desigHeaps(ecPre, a.E)
@@ -813,4 +832,12 @@ func (ft *funcTrans) typeLevelField(ec *evalCtx, x *EField) (string, bool) {
 		}
 	}
 	return "", false
+}
+
+// localCtx: evaluation context for clauses about the function's own variables
+// at the current program point (source names resolve through dominating
+// definitions, like in loop invariants).
+func (ft *funcTrans) localCtx(st *State) *evalCtx {
+	env := ft.namesAt(ft.cur)
+	return &evalCtx{w: ft.w, pkg: ft.pkgTypes(), env: env, st: st, old: ft.entry, lets: ft.lets(), cells: ft.envCells, ft: ft}
 }
